@@ -104,11 +104,12 @@ def find_lexicons(
     cur = connect().cursor()
     found = False
     for specifier in lexicon.split():
-        # a specifier without a star selects a single lexicon: the one
-        # with that id and version or, if only an id is given, the most
-        # recently added one with that id
-        limit = '-1' if '*' in specifier else '1'
-        order = '' if '*' in specifier else 'ORDER BY rowid DESC'
+        # a specifier without a glob pattern selects a single lexicon:
+        # the one with that id and version or, if only an id is given,
+        # the most recently added one with that id
+        is_glob = any(c in specifier for c in '*?[')
+        limit = '-1' if is_glob else '1'
+        order = '' if is_glob else 'ORDER BY rowid DESC'
         if ':' not in specifier:
             specifier += ':*'
         query = f'''
